@@ -52,10 +52,18 @@ SQRH = MUL("sqr_comba", 2, _sqr_sizes, lambda ua, ub: "quick" if ua <= 2 else "t
 
 DIVH = LIN("div", 10, 2, (0,), extra={"VF_QBITS": 3})
 DIVH["cases"] = [c for c in DIVH["cases"] if c["defs"]["VF_UB"] >= 1 and c["defs"]["VF_UA"] >= c["defs"]["VF_UB"]]
+for _c in DIVH["cases"]:
+    if (_c["defs"]["VF_UA"], _c["defs"]["VF_UB"]) != (1, 1):
+        _c["tier"] = "thorough"
+DIVH["cap_s"] = 3600
 DIVH["unwind"] = 10
 DIVH["unwindset"] = {"pstm_div:/while \\(n-- >= 0\\)/": 5, "vf_harness:/for \\(k = 0/": 6, "pstm_count_bits:/./": 66}
 MODH = LIN("mod", 10, 2, (0,), extra={"VF_QBITS": 3, "VF_MOD": 1})
 MODH["cases"] = [c for c in MODH["cases"] if c["defs"]["VF_UB"] >= 1 and c["defs"]["VF_UA"] >= c["defs"]["VF_UB"]]
+for _c in MODH["cases"]:
+    if (_c["defs"]["VF_UA"], _c["defs"]["VF_UB"]) != (1, 1):
+        _c["tier"] = "thorough"
+MODH["cap_s"] = 3600
 MODH["unwind"] = 10
 MODH["unwindset"] = {"pstm_div:/while \\(n-- >= 0\\)/": 5, "vf_harness:/for \\(k = 0/": 6, "pstm_count_bits:/./": 66}
 for _h in HARNESSES[4:]:  # one-operand operations
@@ -64,13 +72,10 @@ for _h in HARNESSES[4:]:  # one-operand operations
 HARNESSES[2]["cases"] = [c for c in HARNESSES[2]["cases"] if c["defs"]["VF_UB"] <= c["defs"]["VF_UA"]]
 HARNESSES += [MULH, SQRH]
 HARNESSES += [DIVH, MODH]
-# DIVH / MODH (pstm_div, pstm_mod; op 10 of linear_ops.c) give no verdict within 12 GB / 600 s:
-# the per-bit loop over heap temporaries whose digit pointers are swapped by pstm_exch is out of
-# reach of CBMC's pointer analysis (see DESIGN.md); they are kept for manual runs only
 
 PROPERTY = dict(level='model_checking',
-    claim='pstm add/sub/sub_s/cmp/mul_2/div_2/div_2d (quotient and remainder, every shift count, c aliasing a)/lshd/rshd/copy equal an independent ripple-carry reference for all 64-bit digit values, all signs, output aliasing; comba multiplication and squaring over the asm2c-translated x86-64 kernels equal schoolbook multiplication with the 64x64 product as an uninterpreted symmetric function.',
+    claim='pstm add/sub/sub_s/cmp/mul_2/div_2/div_2d (quotient and remainder, every shift count, c aliasing a)/lshd/rshd/copy and pstm_div / pstm_mod (a = q*b + r, |r| < |b|, signs; quotients below 2^4) equal an independent ripple-carry reference for all 64-bit digit values, all signs, output aliasing; comba multiplication and squaring over the asm2c-translated x86-64 kernels equal schoolbook multiplication with the 64x64 product as an uninterpreted symmetric function.',
     bounds='operands <= 3 digits (mul/sqr quick: <= 2x2 / 2; thorough 3x3 / 4), capacity 8 digits',
-    outside='pstm_div / pstm_mod (attempted: no verdict, see DESIGN.md), Montgomery reduction, exptmod, invmod, larger operand sizes, the unrolled 16/32-digit variants, non-x86-64 kernels',
-    explanation='pstm add/sub/sub_s/cmp/mul_2/div_2/lshd/rshd/copy equal an independent ripple-carry reference for all 64-bit digit values, all signs, output aliasing; comba multiplication and squaring over the asm2c-translated x86-64 kernels equal schoolbook multiplication with the 64x64 product as an uninterpreted symmetric function.',
+    outside='pstm_div / pstm_mod beyond quotients of 4 bits and 2-digit operands (the per-bit loop costs ~100 s of solver time per quotient bit), Montgomery reduction, exptmod, invmod, larger operand sizes, the unrolled 16/32-digit variants, non-x86-64 kernels',
+    explanation='pstm add/sub/sub_s/cmp/mul_2/div_2/lshd/rshd/copy and pstm_div / pstm_mod (a = q*b + r, |r| < |b|, signs; quotients below 2^4) equal an independent ripple-carry reference for all 64-bit digit values, all signs, output aliasing; comba multiplication and squaring over the asm2c-translated x86-64 kernels equal schoolbook multiplication with the 64x64 product as an uninterpreted symmetric function.',
     assumptions=[])
